@@ -40,6 +40,9 @@ pub struct Case {
     /// data and must reach the handler as sent
     #[serde(default)]
     pub timeouts: Option<(u32, u32)>,
+    /// inbound default timeout (s) on both nodes, again far beyond anything the traffic needs
+    #[serde(default)]
+    pub inbound_default_s: Option<u32>,
 }
 
 pub fn size(max: u32) -> BoxedStrategy<u32> {
@@ -49,6 +52,8 @@ pub fn size(max: u32) -> BoxedStrategy<u32> {
         2 => 200u32..20_000,
         1 => Just(65_536u32),
         1 => (20_000u32..max.max(20_001)),
+        // a few bodies beyond 1 MiB in every tier (paths that treat large bodies differently)
+        1 => prop_oneof![4 => Just(0u32), 1 => 1_048_576u32..1_400_000],
     ]
     .boxed()
 }
@@ -105,6 +110,10 @@ pub fn check(case: &Case, obs: &mut Obs) -> Result<(), Fail> {
         if let Some((d, _)) = case.timeouts {
             sa.config.outbound_request_timeout_ms = Some(d as u64 * 1000);
             sb.config.outbound_request_timeout_ms = Some(d as u64 * 1000);
+        }
+        if let Some(d) = case.inbound_default_s {
+            sa.config.inbound_request_timeout_ms = Some(d as u64 * 1000);
+            sb.config.inbound_request_timeout_ms = Some(d as u64 * 1000);
         }
         let timeout_header: Option<(String, String)> = case.timeouts.map(|(_, h)| ("timeout".to_string(), (h as u64 * 1_000_000_000).to_string()));
         let limited = case.max_frame.0.is_some() || case.max_frame.1.is_some() || !case.redials.is_empty();
@@ -247,15 +256,16 @@ impl Part for Traffic {
     type Case = Case;
     fn name(&self) -> &'static str { "traffic" }
     fn rule(&self) -> &'static str {
-        "one connection A<->B on the virtual fabric, 1-40 RPCs in both directions with generated start offsets, routes (any string), 0-8 headers, request/response sizes 0..multi-MiB (incl. 1199-1201 = one datagram), handler delays (arbitrary completion order), all eight status codes, optional re-dials that replace the connection under the traffic, optional max_frame_size on either side (oversize frames fail single RPCs, possibly after the handler ran), optionally an outbound default timeout of hours on both nodes together with a `timeout` header of hours on every request (larger or smaller than the default; it cuts nothing off and must reach the handler as sent), and a fault script (loss <=25%, delay jitter <=50 ms => reordering, duplication <=10%); server behaviour is a pure function F of the request; oracle: Ok(resp) => resp == F(request sent) exactly and exactly one handler start with the sent route/headers/body; starts <= 1 for every id; nothing delivered that was not sent; non-trivial = >=2 RPCs overlapping in virtual time, or a body spanning >1 datagram, or a fault that hit a datagram; distinct by case"
+        "one connection A<->B on the virtual fabric, 1-40 RPCs in both directions with generated start offsets, routes (any string), 0-8 headers, request/response sizes 0..multi-MiB (incl. 1199-1201 = one datagram), handler delays (arbitrary completion order), all eight status codes, optional re-dials that replace the connection under the traffic, optional max_frame_size on either side (oversize frames fail single RPCs, possibly after the handler ran), optionally outbound and/or inbound default timeouts of hours on both nodes together with a `timeout` header of hours on every request (larger or smaller than the default; it cuts nothing off and must reach the handler as sent), and a fault script (loss <=25%, delay jitter <=50 ms => reordering, duplication <=10%); server behaviour is a pure function F of the request; oracle: Ok(resp) => resp == F(request sent) exactly and exactly one handler start with the sent route/headers/body; starts <= 1 for every id; nothing delivered that was not sent; non-trivial = >=2 RPCs overlapping in virtual time, or a body spanning >1 datagram, or a fault that hit a datagram; distinct by case"
     }
     fn strategy(&self, _t: Tier) -> BoxedStrategy<Case> {
         let max = self.0;
         let lim = || prop_oneof![6 => Just(None), 1 => (200u32..100_000).prop_map(Some), 1 => (200u32..3_000).prop_map(Some)];
         let redials = prop_oneof![3 => Just(vec![]), 1 => prop::collection::vec((any::<bool>(), 0u16..400), 1..3)];
         let timeouts = prop_oneof![3 => Just(None), 1 => (3_600u32..86_400, 1u32..400_000).prop_map(|(d, h)| Some((d, 3_600 + h)))];
-        (prop::collection::vec(rpc(max), 1..40), prop::collection::vec(fault_seg(2, 3000), 0..4), any::<u64>(), 1u8..30, (lim(), lim()), redials, timeouts)
-            .prop_map(|(rpcs, faults, fault_seed, link_delay_ms, max_frame, redials, timeouts)| Case { rpcs, faults, fault_seed, link_delay_ms, max_frame, redials, timeouts })
+        let inbound = prop_oneof![3 => Just(None), 1 => (3_600u32..86_400).prop_map(Some)];
+        (prop::collection::vec(rpc(max), 1..40), prop::collection::vec(fault_seg(2, 3000), 0..4), any::<u64>(), 1u8..30, (lim(), lim()), redials, timeouts, inbound)
+            .prop_map(|(rpcs, faults, fault_seed, link_delay_ms, max_frame, redials, timeouts, inbound_default_s)| Case { rpcs, faults, fault_seed, link_delay_ms, max_frame, redials, timeouts, inbound_default_s })
             .boxed()
     }
     fn run(&self, c: &Case, obs: &mut Obs) -> Result<(), Fail> { check(c, obs) }
